@@ -544,7 +544,7 @@ func writeEvidence(rd *runData, prop, tier string, seed int, sel, discharged, kn
 		assumptions = append(assumptions, "fields of shared structs without a declaration in the contract file get the class their accesses show (immutable if only a constructor stores them, else guarded by the struct's mutex): "+strings.Join(ks, ", "))
 	}
 	if len(counters) > 0 {
-		assumptions = append(assumptions, "fields declared `counter` change by steps of one only (obligation counter.unit_step at every store) and are treated as mathematical, 2^63 steps away from wrapping: "+strings.Join(counters, ", "))
+		assumptions = append(assumptions, "a step of one (x+1, x-1) on the value of a 64-bit integer field is treated as mathematical, 2^63 steps away from wrapping (fields declared `counter` are in addition checked to change by such steps only: counter.unit_step): "+strings.Join(counters, ", "))
 	}
 	assumptions = append(assumptions, "unsigned 64-bit counters (store revisions, disconnect generations) are mathematical everywhere: a wrap-around after 2^64 increments is out of scope")
 	if len(au) > 0 {
